@@ -13,4 +13,98 @@ finder / NLP solver behaviour that honours its contract (hypotheses `RootSound`,
 -/
 namespace RtcVerif.C09
 
+/-- **Step = backward Euler, in physical units.**  If `update` returns, the new object state
+    satisfies every model equation `F = 0` and every extra equation `G = 0` at the advanced time
+    `t + dt`, with the inputs as they stand in the state vector when `update` runs (the IO mixin
+    has put the values for `t + dt` there, see `C09_io_step`), every derivative variable equals
+    the difference quotient `(x⁺ - x)/dt`, hence `F(x⁺, a⁺, (x⁺ - x)/dt, u, p, t + dt) = 0`.
+    For every residual function, every nominal table (any sign or size of the nominals), every
+    layout, every root finder that honours its contract. -/
+theorem C09_step_backward_euler (M : Static) (F G : ResFn) (root : Root) (hroot : RootSound root)
+    (hwf : NomWF M) (s s' : Sim) (dtArg : Rat) (hlen : s.sv.length = M.L.len)
+    (h : update M F G root s dtArg = .returned s') :
+    let dt := if dtArg > 0 then dtArg else s.dt
+    (∀ v ∈ F (envOf M s'), v = 0)
+    ∧ (∀ v ∈ G (envOf M s'), v = 0)
+    ∧ (envOf M s').d = diffQuot M s s' dt
+    ∧ (∀ v ∈ F { envOf M s' with d := diffQuot M s s' dt }, v = 0)
+    ∧ (envOf M s').t = (envOf M s).t + dt
+    ∧ (envOf M s').u = (envOf M s).u
+    ∧ (envOf M s').p = (envOf M s).p
+    ∧ s'.sv.length = M.L.len ∧ s'.dt = dt := by
+  intro dt
+  obtain ⟨hz, hl', hdt', ht, hd⟩ := update_returned M F G root hroot hwf s s' dtArg hlen h
+  rw [stepResidual_phys M F G s s' _ hlen ht hd] at hz
+  have hF : ∀ v ∈ F (envOf M s'), v = 0 := fun v hv => hz v (by simp [hv])
+  have hG : ∀ v ∈ G (envOf M s'), v = 0 := fun v hv => hz v (by simp [hv])
+  have hD : ∀ k, k < M.L.nS →
+      (envOf M s').d.getD k 0 = ((envOf M s').x.getD k 0 - (envOf M s).x.getD k 0) / dt := by
+    intro k hk
+    have := hz ((envOf M s').d.getD k 0 - ((envOf M s').x.getD k 0 - (envOf M s).x.getD k 0) / dt)
+      (by
+        apply List.mem_append_left
+        apply List.mem_append_right
+        exact List.mem_map.2 ⟨k, List.mem_range.2 hk, rfl⟩)
+    linarith
+  have hdlen : (envOf M s').d.length = M.L.nS := by
+    apply mkEnv_d_length
+    rw [scaleSubst_length, List.length_take, hl']
+    have := M.L.nX_lt_len
+    omega
+  have hdq : (envOf M s').d = diffQuot M s s' dt := by
+    apply List.ext_getElem
+    · simp [hdlen, diffQuot]
+    · intro k h1 h2
+      have hk : k < M.L.nS := by rw [hdlen] at h1; exact h1
+      have := hD k hk
+      rw [List.getD_eq_getElem?_getD, List.getElem?_eq_getElem h1] at this
+      simp only [Option.getD_some] at this
+      rw [this]
+      simp [diffQuot]
+  refine ⟨hF, hG, hdq, ?_, ?_, ?_, rfl, hl', hdt'⟩
+  · rw [← hdq]; exact hF
+  · exact ht
+  · show List.take M.L.nU (List.drop (M.L.nX + 1) s'.sv) = List.take M.L.nU (List.drop (M.L.nX + 1) s.sv)
+    rw [hd]
+
+/-- **An unsolvable step raises.**  When the root finder reports failure, `update` does not
+    return: an exception propagates.  The object is left with the advanced time and the old
+    unknowns (nothing is half-written). -/
+theorem C09_failure_raises (M : Static) (F G : ResFn) (root : Root) (hwf : NomWF M)
+    (s : Sim) (dtArg : Rat) (hlen : s.sv.length = M.L.len)
+    (hfail : ∀ r, root r (s.sv.take M.L.nX) = none) :
+    ∃ s', update M F G root s dtArg = .raised s'
+      ∧ s'.sv.take M.L.nX = s.sv.take M.L.nX
+      ∧ s'.sv.drop (M.L.nX + 1) = s.sv.drop (M.L.nX + 1)
+      ∧ s'.sv.getD M.L.nX 0 = s.sv.getD M.L.nX 0 + (if dtArg > 0 then dtArg else s.dt) := by
+  have hu := update_unfold M F G root s dtArg hwf hlen
+  simp only at hu
+  rw [hu, hfail]
+  have hnl := M.L.nX_lt_len
+  refine ⟨_, rfl, ?_, ?_, ?_⟩
+  · simp [List.take_set_of_le]
+  · simp [List.drop_set_of_lt]
+  · simp only
+    rw [List.getD_eq_getElem?_getD, List.getElem?_set_self (by omega)]
+    rfl
+
+/-- converse reading of the two theorems above: `update` returns **iff** the root finder
+    produced an answer (so with a sound root finder: only with a root) -/
+theorem C09_returns_iff_root (M : Static) (F G : ResFn) (root : Root) (hwf : NomWF M)
+    (s : Sim) (dtArg : Rat) (hlen : s.sv.length = M.L.len) :
+    (update M F G root s dtArg).isReturned = true ↔
+      ∃ x, root (fun X => stepResidual M F G X (if dtArg > 0 then dtArg else s.dt)
+        ((s.sv.set M.L.nX (s.sv.getD M.L.nX 0 + (if dtArg > 0 then dtArg else s.dt))).take
+          (M.L.nX + 1 + M.L.nU))) (s.sv.take M.L.nX) = some x := by
+  have hu := update_unfold M F G root s dtArg hwf hlen
+  simp only at hu
+  rw [hu]
+  split
+  · rename_i hr
+    constructor
+    · intro h; cases h
+    · rintro ⟨x, hx⟩; rw [hr] at hx; cases hx
+  · rename_i x hr
+    exact ⟨fun _ => ⟨x, hr⟩, fun _ => rfl⟩
+
 end RtcVerif.C09
